@@ -1,7 +1,7 @@
 #!/bin/bash
 # tools/refac_matrix.sh <root> [groups...] : apply each behaviour-preserving refactoring patch to a scratch worktree and run all checks; anything reported is a false alarm
 ROOT=${1:-/verif/refactorings}; shift
-WT=/tmp/wt_refac
+WT=${WT:-/tmp/wt_refac}
 cd /verif
 [ -d $WT ] || git -C /repo worktree add -q --detach $WT HEAD
 git -C $WT checkout -q -- . ; git -C $WT checkout -q --detach "$(git -C /repo rev-parse HEAD)"
